@@ -74,8 +74,8 @@ def h64(obj):
 
 def merge(total, r):
     for k, v in r.items():
-        if k == 'hashes':
-            total.setdefault('hashes', set()).update(v)
+        if isinstance(v, (set, frozenset)):
+            total.setdefault(k, set()).update(v)
         elif k == 'outcomes':
             oc = total.setdefault('outcomes', collections.Counter())
             for kk, vv in v.items():
